@@ -561,6 +561,20 @@ impl Store {
         }
 
         let mut batch = self.keyspace.batch();
+
+        // An import may carry an id that is already stored. When the stored frame lives under
+        // another topic or context, its index entries (and its context registration) must go
+        // with it: left behind, head() and the context stream would keep answering with them
+        if let Some(old) = self.get(&frame.id) {
+            if old.topic != frame.topic || old.context_id != frame.context_id {
+                batch.remove(&self.idx_topic, idx_topic_key_from_frame(&old)?);
+                batch.remove(&self.idx_context, idx_context_key_from_frame(&old));
+                if old.topic == "xs.context" && old.context_id == ZERO_CONTEXT {
+                    self.contexts.write().unwrap().remove(&old.id);
+                }
+            }
+        }
+
         batch.insert(&self.frame_partition, frame.id.as_bytes(), encoded);
         batch.insert(&self.idx_topic, topic_key, b"");
         batch.insert(&self.idx_context, idx_context_key_from_frame(frame), b"");
